@@ -770,3 +770,39 @@ func reachesCall(f *ssa.Function, pkg string, depth int, pred func(ssa.CallInstr
 	}
 	return visit(f, 0)
 }
+
+// fileNameFields: the names of the struct fields of pkg/parse that hold the
+// name of a source file, by role — the fields whose value is handed to the
+// reader as the path to read ("filename" when nothing is found).
+var fileNameFieldMemo map[*Program]map[string]bool
+
+func fileNameFields(p *Program) map[string]bool {
+	if fileNameFieldMemo == nil {
+		fileNameFieldMemo = map[*Program]map[string]bool{}
+	}
+	if m, ok := fileNameFieldMemo[p]; ok {
+		return m
+	}
+	out := map[string]bool{"filename": true}
+	for _, f := range p.RepoFuncs() {
+		if fnPkgPath(f) != repoMod+"/pkg/parse" {
+			continue
+		}
+		eachCall(f, func(cl ssa.CallInstruction) {
+			cc := cl.Common()
+			if !cc.IsInvoke() || cc.Method == nil || !strings.HasPrefix(cc.Method.Name(), "Read") || cc.Method.Pkg() == nil || !strings.HasSuffix(cc.Method.Pkg().Path(), "/reader") {
+				return
+			}
+			for _, a := range cc.Args {
+				if !isStringType(a.Type()) {
+					continue
+				}
+				if _, fld, _, ok := loadedField(unspill(a)); ok {
+					out[strings.ToLower(fld)] = true
+				}
+			}
+		})
+	}
+	fileNameFieldMemo[p] = out
+	return out
+}
